@@ -135,11 +135,17 @@ def extract_local_caps():
     return caps
 
 
+class SanitizerAtInit(Exception):
+    """the engine's own initialisation (tables, bitbase, evaluator set-up) aborts under ASan/UBSan"""
+
+
 def gen_lean(exe):
     """Tie (i): re-extract the data the model uses from the binary built from the current tree."""
     with Lock('gen'):
         r = run([exe, 'dump'])
         if r.returncode != 0 or 'END' not in r.stdout:
+            if 'ERROR: AddressSanitizer' in r.stdout or 'runtime error:' in r.stdout or 'LeakSanitizer' in r.stdout:
+                raise SanitizerAtInit(r.stdout[-4000:])
             raise RuntimeError('dump failed:\n' + r.stdout[-3000:])
         caps = extract_local_caps()
         dump = r.stdout
